@@ -36,6 +36,30 @@ static void do_hmm(char **w)
     ckd_free_2d(sseq);
 }
 
+/* hmm5 <30 tp bytes> <5 senone scores> <in> <s1> <s2> <s3> <s4> <out>  -> hmm5 <in> <s1>..<s4> <out> <best> */
+static void do_hmm5(char **w)
+{
+    uint8 ***tp = (uint8 ***)ckd_calloc_3d(1, 5, 6, sizeof(uint8));
+    uint16 **sseq = (uint16 **)ckd_calloc_2d(1, 5, sizeof(uint16));
+    int16 senscr[5];
+    hmm_context_t *ctx;
+    hmm_t hmm;
+    int i, best;
+    for (i = 0; i < 30; i++) tp[0][i / 6][i % 6] = (uint8)atoi(w[1 + i]);
+    for (i = 0; i < 5; i++) { senscr[i] = (int16)atoi(w[31 + i]); sseq[0][i] = (uint16)i; }
+    ctx = hmm_context_init(5, tp, senscr, sseq);
+    hmm_init(ctx, &hmm, FALSE, 0, 0);
+    for (i = 0; i < 5; i++) hmm_score(&hmm, i) = atoi(w[36 + i]);
+    hmm_out_score(&hmm) = atoi(w[41]);
+    best = hmm_vit_eval(&hmm);
+    printf("hmm5 %d %d %d %d %d %d %d\n", hmm_in_score(&hmm), hmm_score(&hmm, 1), hmm_score(&hmm, 2), hmm_score(&hmm, 3),
+           hmm_score(&hmm, 4), hmm_out_score(&hmm), best);
+    hmm_deinit(&hmm);
+    hmm_context_free(ctx);
+    ckd_free_3d(tp);
+    ckd_free_2d(sseq);
+}
+
 static void do_hist(char **w, int n)
 {
     static fsg_model_t fsg;
@@ -82,6 +106,7 @@ int main(void)
     while (fgets(line, sizeof(line), stdin)) {
         int n = vf_words(line, w, 4096);
         if (n == 20 && !strcmp(w[0], "hmm")) do_hmm(w);
+        else if (n == 42 && !strcmp(w[0], "hmm5")) do_hmm5(w);
         else if (n >= 2 && !strcmp(w[0], "hist")) do_hist(w, n);
         else printf("bad-op\n");
         fflush(stdout);
